@@ -10,6 +10,7 @@ package pilosa
 
 import (
 	"fmt"
+	"os"
 	"sort"
 	"strings"
 	"time"
@@ -20,6 +21,7 @@ import (
 
 type c29fWorld struct {
 	idx *Index
+	dir string
 }
 
 func c29fOpen() *c29fWorld {
@@ -37,10 +39,13 @@ func c29fOpen() *c29fWorld {
 	if _, err := idx.CreateField("m", OptFieldTypeMutex(CacheTypeRanked, 100)); err != nil {
 		panic(err)
 	}
-	return &c29fWorld{idx: idx}
+	return &c29fWorld{idx: idx, dir: dir}
 }
 
-func (w *c29fWorld) close() { vx.Guard(func() { w.idx.Close() }) }
+func (w *c29fWorld) close() {
+	vx.Guard(func() { w.idx.Close() })
+	os.RemoveAll(w.dir)
+}
 
 type c29fOp struct {
 	name string
@@ -191,6 +196,91 @@ func c29fLinearizable(ops []c29fOp, evs []c29fEvent, final string, cache map[str
 	return false, strings.Join(tried, " ; ")
 }
 
+// c29fMinimalPair: for a violating scenario with more than two operations, looks for two single
+// operations from DIFFERENT threads of it that are not linearizable on their own (full exploration of
+// that two-thread scenario with the same preemption bound) and returns the finding key of the first
+// such pair, or "".
+func c29fMinimalPair(ops []c29fOp, sc [][]int, bound int) string {
+	total := 0
+	for _, th := range sc {
+		total += len(th)
+	}
+	if total <= 2 {
+		return ""
+	}
+	tried := map[[2]int]bool{}
+	for i := 0; i < len(sc); i++ {
+		for j := i + 1; j < len(sc); j++ {
+			for _, a := range sc[i] {
+				for _, b := range sc[j] {
+					pr := [2]int{a, b}
+					if a > b {
+						pr = [2]int{b, a}
+					}
+					if tried[pr] {
+						continue
+					}
+					tried[pr] = true
+					if c29fPairViolates(ops, pr[0], pr[1], bound) {
+						set := map[string]bool{ops[pr[0]].name: true, ops[pr[1]].name: true}
+						var ks []string
+						for k := range set {
+							ks = append(ks, k)
+						}
+						sort.Strings(ks)
+						return "field " + strings.Join(ks, "|")
+					}
+				}
+			}
+		}
+	}
+	return ""
+}
+
+func c29fPairViolates(ops []c29fOp, a, b, bound int) bool {
+	sc := [][]int{{a}, {b}}
+	cache := map[string][]string{}
+	var evs []c29fEvent
+	var clock int
+	var world *c29fWorld
+	bad := false
+	build := func(x *vsched.X) func(tr *vsched.Trace) {
+		evs = evs[:0]
+		clock = 0
+		world = c29fOpen()
+		w := world
+		for ti, th := range sc {
+			ti, th := ti, th
+			x.Go(fmt.Sprintf("t%d", ti), func() {
+				for _, oi := range th {
+					clock++
+					e := c29fEvent{thread: ti, op: oi, call: clock}
+					e.res = ops[oi].run(w)
+					clock++
+					e.ret = clock
+					evs = append(evs, e)
+				}
+			})
+		}
+		return nil
+	}
+	vsched.Explore(bound, vsched.Options{Reduce: true}, build, func(choices []int, tr *vsched.Trace) bool {
+		defer world.close()
+		if tr.Diverged != "" || tr.Deadlock != "" || len(tr.Panics) > 0 || len(tr.Leaked) > 0 {
+			return true
+		}
+		final := c29fFinal(world)
+		hist := append([]c29fEvent(nil), evs...)
+		sort.Slice(hist, func(i, j int) bool { return hist[i].call < hist[j].call })
+		if ok, _ := c29fLinearizable(ops, hist, final, cache); !ok {
+			bad = true
+			return false
+		}
+		return true
+	}, nil)
+	return bad
+}
+
 // c29FieldPart explores the field-level scenarios; called from TestVerif_C29 inside its bubble.
 func c29FieldPart(c *vx.Check) {
 	ops := c29fOps()
@@ -291,7 +381,13 @@ func c29FieldPart(c *vx.Check) {
 			c.Outcome(obs)
 			c.Distinct(name + "|" + obs)
 			if ok, tried := c29fLinearizable(ops, hist, final, cache); !ok {
-				c.Violate("not-linearizable "+key, cs, obs, "some sequential order of the operations; tried: "+tried)
+				k := key
+				if mk := c29fMinimalPair(ops, sc, bound); mk != "" {
+					// the anomaly already exists between two single operations of this scenario: the
+					// finding is keyed by that minimal pair, whatever else ran alongside
+					k = mk
+				}
+				c.Violate("not-linearizable "+k, cs, obs, "some sequential order of the operations; tried: "+tried)
 				return false
 			}
 			return true
